@@ -67,6 +67,7 @@ PHASES = {
     "C05": [
         {"pkg": "e2", "test": "TestC05StoreBeforeAck", "phase": "C05/store-before-ack"},
         {"pkg": "e2", "test": "TestC05SlowRemote", "phase": "C05/slow-remote-log"},
+        {"pkg": "e2", "test": "TestC05RealLogFailure", "phase": "C05/real-log-failure"},
     ],
     "C03": [
         {"pkg": "e2", "test": "TestC03Retransmission", "phase": "C03/retransmission"},
@@ -90,6 +91,7 @@ PHASES = {
         {"pkg": "e1", "test": "TestC07TwoWriters", "phase": "C07/two-publishers"},
         {"pkg": "e2", "test": "TestC07Wire", "phase": "C07/wire"},
         {"pkg": "e2", "test": "TestC07LateAnswers", "phase": "C07/late-answers"},
+        {"pkg": "e2", "test": "TestC07ManyRetained", "phase": "C07/many-retained-while-writer-busy"},
     ],
     "C08": [
         {"pkg": "e1", "test": "TestC08Convergence", "phase": "C08/convergence"},
